@@ -829,6 +829,10 @@ class AndMaybeMatcher(AdditiveBiMatcher):
                 # threshold), so looping again cannot make progress
                 break
 
+        if a.is_active() and b.is_active() and b.id() < a.id():
+            # Re-align the optional matcher with the main one
+            b.skip_to(a.id())
+
         return skipped
 
     def weight(self):
